@@ -90,12 +90,50 @@ void carquet_error_set(carquet_error_t *error, carquet_status_t code, const char
   if (cqv_error_sets < 1000) cqv_error_sets++;
 }
 
+#ifdef CQV_STR_EXACT
+/* exact small-bound string models (bounded jobs): every string must have its NUL within the first
+ * CQV_STR_EXACT bytes (precondition, checked) */
+size_t strlen(const char *s) {
+  size_t n = 0; _Bool done = 0;
+  for (int i = 0; i < CQV_STR_EXACT; i++) { if (!done) { if (s[i] == 0) done = 1; else n++; } }
+  __CPROVER_precondition(done, "strlen: NUL within the model bound");
+  return n;
+}
+int strcmp(const char *a, const char *b) {
+  int r = 0; _Bool done = 0;
+  for (int i = 0; i < CQV_STR_EXACT; i++) {
+    if (!done) {
+      unsigned char x = (unsigned char)a[i], y = (unsigned char)b[i];
+      if (x != y) { r = x < y ? -1 : 1; done = 1; }
+      else if (x == 0) done = 1;
+    }
+  }
+  __CPROVER_precondition(done, "strcmp: NUL or difference within the model bound");
+  return r;
+}
+int strncmp(const char *a, const char *b, size_t n) {
+  int r = 0; _Bool done = 0;
+  for (int i = 0; i < CQV_STR_EXACT; i++) {
+    if (!done) {
+      if ((size_t)i >= n) done = 1;
+      else {
+        unsigned char x = (unsigned char)a[i], y = (unsigned char)b[i];
+        if (x != y) { r = x < y ? -1 : 1; done = 1; }
+        else if (x == 0) done = 1;
+      }
+    }
+  }
+  __CPROVER_precondition(done, "strncmp: end within the model bound");
+  return r;
+}
+#else
 int __CPROVER_uninterpreted_cqv_strcmp(const char *a, const char *b);
 int strcmp(const char *a, const char *b) {
   __CPROVER_precondition(__CPROVER_r_ok(a, 1), "strcmp: first string readable");
   __CPROVER_precondition(__CPROVER_r_ok(b, 1), "strcmp: second string readable");
   return __CPROVER_uninterpreted_cqv_strcmp(a, b);
 }
+#endif
 
 /* realloc model.  CBMC's own model copies the whole (symbolic-size) object and exhausts memory.
  * This one returns NULL (possible under --malloc-may-fail) or a new object of n bytes whose
@@ -105,6 +143,7 @@ int strcmp(const char *a, const char *b) {
  * sets of the four arrays apart.) */
 #include "thrift/parquet_types.h"
 struct cqv_re_s { const void *obj; int kind; size_t i0, i1; } cqv_re[4];
+#ifndef CQV_LIBC_REALLOC   /* bounded jobs use CBMC's own realloc (full copy) */
 void *realloc(void *p, size_t n) {
 #ifdef CQV_NOGROW
   /* case split "num_elements < capacity": growth must be unreachable (proved, not assumed) */
@@ -134,6 +173,7 @@ void *realloc(void *p, size_t n) {
   free(p);
   return q;
 }
+#endif
 
 #ifdef CQV_SCHEMA_MEMSET
 /* memset for jobs that need the zero-initialisation of ONE schema element to be exact (used
